@@ -220,6 +220,9 @@ func runWorld(p *Prop, t *simrt.Tape, trace bool) (res Result) {
 		defer func() {
 			if r := recover(); r != nil {
 				res.V = panicToViolation(p.ID, r)
+				if res.V.Facts == nil && w.opFacts != nil {
+					res.V.Facts = w.opFacts
+				}
 			}
 		}()
 		p.Run(w)
